@@ -547,3 +547,45 @@ UNITS["v_target_ops"] = dict(
              safety_id="C17.runtime_resolve.safety", safety_text="no panic whatever the target answers"),
     ],
 )
+
+# ------------------------------------------------------------------------------------------------
+SEGM = "|a: OwnedSegment, p: OwnedSegment| seg_match(a, p)"
+SEGA = "|a: OwnedSegment, p: OwnedSegment| seg_may_alias(a, p)"
+UNITS["v_read_only"] = dict(
+    prop=["C15"], tier="q", prelude=["readonly.rs"], native_witness=["read_only"],
+    fns=[
+        dict(id="segment_can_start_with", file="src/path/owned.rs", impl="impl OwnedSegment", name="can_start_with",
+             orig_sig="fn can_start_with(&self, prefix: &OwnedSegment) -> bool",
+             wrap=("impl OwnedSegment {", "}"), sig="pub fn can_start_with(&self, prefix: &OwnedSegment) -> (r: bool)",
+             ensures=[("C15.segment.sound", "two segments that may address the same element (same field, same index, or indices of different sign) are never reported as disjoint",
+                       "seg_may_alias(*self, *prefix) ==> r"),
+                      ("C15.segment.precise", "segments that can never address the same element are reported as disjoint",
+                       "!seg_may_alias(*self, *prefix) ==> !r")],
+             safety_id="C15.segment.safety"),
+        dict(id="target_path_can_start_with", file="src/path/owned.rs", impl="impl OwnedTargetPath", name="can_start_with",
+             orig_sig="fn can_start_with(&self, prefix: &Self) -> bool",
+             wrap=("impl OwnedTargetPath {", "}"), sig="pub fn can_start_with(&self, prefix: &OwnedTargetPath) -> (r: bool)",
+             rewrites=[dict(**{"from": "(&self.path).can_start_with(&prefix.path)", "to": "self.path.can_start_with_path(&prefix.path)", "why": "generic ValuePath::can_start_with: callee contract (Kani unit k_value_path_can_start_with)"})],
+             ensures=[("C15.target_path.starts", "a target path starts with another exactly when the prefixes (event/metadata) agree and the segments match pairwise",
+                       "r == tstarts(*self, *prefix, %s)" % SEGA)],
+             safety_id="C15.target_path.safety"),
+        dict(id="is_read_only_path", file="src/compiler/compile_config.rs", impl="impl CompileConfig", name="is_read_only_path",
+             orig_sig="fn is_read_only_path(&self, path: &OwnedTargetPath) -> bool",
+             wrap=("impl CompileConfig {", "}"), sig="pub fn is_read_only_path(&self, path: &OwnedTargetPath) -> (r: bool)",
+             rewrites=[dict(**{"from": "for read_only_path in &self.read_only_paths {", "to": "for read_only_path in it: self.read_only_paths.iter() {", "count": 1, "why": "BTreeSet iteration = a sequence of entries; Verus for-loop syntax with a named iterator"}),
+                       dict(**{"from": "path == &read_only_path.path", "to": "path.same_as(&read_only_path.path)", "count": 1, "why": "derived PartialEq on OwnedTargetPath"})],
+             loops={"_count": 1, 0: dict(spec="invariant forall|k: int| 0 <= k < it.index@ ==> !blocked(#[trigger] self.read_only_paths@[k], *path, %s)," % SEGA)},
+             ensures=[("C15.is_read_only.rule", "a path is refused exactly when some read-only entry is at or below it, equals it, or (recursive entries) contains it",
+                       "r == exists|k: int| 0 <= k < self.read_only_paths@.len() && blocked(#[trigger] self.read_only_paths@[k], *path, %s)" % SEGA),
+                      ("C15.is_read_only.no_reach", "an accepted write can not reach any read-only location: no entry is (possibly) at, below or - for recursive entries - above the written path, counting negative/non-negative index aliasing",
+                       "!r ==> forall|k: int| 0 <= k < self.read_only_paths@.len() ==> !may_reach(#[trigger] self.read_only_paths@[k], *path)")],
+             safety_id="C15.is_read_only.safety"),
+        dict(id="verify_mutable", file="src/compiler/expression/assignment.rs", impl=None, name="verify_mutable",
+             orig_sig="fn verify_mutable( target: &Target, config: &CompileConfig, expr_span: Span, assignment_span: Span, ) -> Result<(), Error>",
+             sig="pub fn verify_mutable(target: &Target, config: &CompileConfig, expr_span: Span, assignment_span: Span) -> (r: Result<(), Error>)",
+             ensures=[("C15.verify_mutable.guard", "an assignment is rejected at compile time exactly when its target is an event/metadata path the configuration refuses; variable and `_` targets are always accepted",
+                       "(r is Err) == (target is External && spec_is_read_only(*config, target->External_0))"),
+                      ("C15.verify_mutable.kind", "the rejection is the read-only error", "r is Err ==> r->Err_0.variant is ReadOnly")],
+             safety_id="C15.verify_mutable.safety"),
+    ],
+)
